@@ -196,6 +196,7 @@ ApplyAccepted(fs, base, e, fn) ==
             IF Materialise(base, fn, e) /\ p # <<>> /\ IsDir(fs, Front(p)) /\ ~Has(fs, p) /\ Has(fs, tp) /\ Get(fs, tp).k = "file"
             THEN [fs |-> Put(fs, [p |-> p, k |-> "hard", t |-> tp, abs |-> 0]), touched |-> {p, tp}]   \* the target's inode gets a new name
             ELSE [fs |-> fs, touched |-> {}]
+       [] OTHER -> [fs |-> fs, touched |-> {}]             \* fifo, device, ...: header types the loop ignores
 ApplyEntry(fs, base, e) ==
   LET t == EntryTarget(base, e.n) IN
   IF t.ok THEN ApplyAccepted(fs, base, e, t.fn) @@ [halt |-> FALSE]
@@ -215,7 +216,9 @@ DigestClasses == {
   [c |-> "nocolon",  alg |-> <<>>, enc |-> <<"empty", "G", "victim">>, colon |-> 0, valid |-> 0],           \* "/G/victim"
   [c |-> "long",     alg |-> <<"sha256">>, enc |-> <<"long">>, colon |-> 1, valid |-> 0],
   [c |-> "nul",      alg |-> <<"sha256">>, enc |-> <<"nul">>, colon |-> 1, valid |-> 0],
-  [c |-> "dotenc",   alg |-> <<"sha256">>, enc |-> <<"dotdot">>, colon |-> 1, valid |-> 0] }
+  [c |-> "dotenc",   alg |-> <<"sha256">>, enc |-> <<"dotdot">>, colon |-> 1, valid |-> 0],
+  [c |-> "v512",     alg |-> <<"sha512">>, enc |-> <<"hex512">>, colon |-> 1, valid |-> 1],  \* another registered algorithm
+  [c |-> "shortenc", alg |-> <<"sha256">>, enc |-> <<"short">>, colon |-> 1, valid |-> 0] }  \* wrong length for the algorithm
 Dig(c) == CHOOSE d \in DigestClasses : d.c = c
 Validate(d) == d.valid = 1                                 \* digest.Digest.Validate
 BlobFile(layout, d) == Join(layout, <<"blobs">> \o d.alg \o d.enc)   \* path.Join(r.Path, "blobs", alg, encoded)
@@ -227,22 +230,27 @@ LayoutOps == {"BlobGet", "BlobHead", "BlobPut", "BlobDelete", "ManifestGet", "Ma
 \* where the hostile value is put
 Places(op) ==
   CASE op \in {"BlobGet", "BlobHead", "BlobPut", "BlobDelete"} -> {"desc", "ref", "both"}
-    [] op \in {"ManifestGet", "ManifestHead"} -> {"ref", "desc", "index", "tag"}
+    [] op \in {"ManifestGet", "ManifestHead"} -> {"ref", "desc", "index", "tag", "platform"}   \* platform: WithManifestPlatform walks a nested index
     [] op = "ManifestPut" -> {"ref", "desc", "subject", "child", "tag"}
     [] op = "ManifestDelete" -> {"ref", "index"}
     [] op \in {"TagDelete", "TagList"} -> {"tag"}
-    [] op = "ReferrerList" -> {"ref", "index"}
+    [] op = "ReferrerList" -> {"ref", "index", "extsrc"}                 \* extsrc: scheme.WithReferrerSource(other layout)
     [] op = "Close" -> {"index", "nested", "layer"}
     [] op = "ImageCopy" -> {"srcindex", "srcchild", "srclayer", "srcsubject", "tgtref", "tgttag"}
 \* caller-supplied manifest for ManifestDelete: none | plain image | artifact with a subject | artifact with hostile subject
 WithM(op) == IF op = "ManifestDelete" THEN {"none", "plain", "subject", "hsubject"} ELSE {"none"}
 Chk(op) == IF op = "ManifestDelete" THEN {0, 1} ELSE {0}
+\* further per-operation input: the Size of the descriptor given to blob calls (ocidir stats the file when it is <= 0, BlobPut
+\* compares it), the options of ImageCopy
+Opts(op) == CASE op \in {"BlobGet", "BlobHead", "BlobPut", "BlobDelete"} -> {"size_ok", "size_zero", "size_wrong"}
+              [] op = "ImageCopy" -> {"none", "referrers", "digesttags", "force"}
+              [] OTHER -> {"-"}
 
 IsTagClass(h) == h \in {"tag_" \o t : t \in TagClasses}
 \* the digests an operation sees: in the reference, in the descriptor argument, in stored (untrusted) content
 RefD(s) == IF s.place \in {"ref", "both", "tgtref"} \/ (s.op = "ManifestDelete" /\ s.place = "index") THEN Dig(s.h) ELSE Dig("valid")
 DescD(s) == IF s.place \in {"desc", "both"} THEN Dig(s.h) ELSE Dig("valid")
-ContentD(s) == IF s.place \in {"index", "nested", "layer", "child", "subject", "srcindex", "srcchild", "srclayer", "srcsubject"}
+ContentD(s) == IF s.place \in {"index", "nested", "layer", "child", "subject", "srcindex", "srcchild", "srclayer", "srcsubject", "platform"}
                THEN Dig(s.h) ELSE Dig("valid")
 Guarded(layout, d) == IF Validate(d) THEN {BlobFile(layout, d)} ELSE {}          \* "if err := d.Validate(); err != nil { return }"
 Unguarded(layout, d) == IF d.colon = 0 THEN {} ELSE {BlobFile(layout, d)}        \* Algorithm() panics without ":"
@@ -251,7 +259,7 @@ BlobAccessT(layout, s) == Guarded(layout, DescD(s))                             
 BlobPutT(layout, s) == Guarded(layout, DescD(s)) \cup {BlobFile(layout, Dig("valid"))}   \* blob.go:BlobPut, computed digest otherwise
 ManifestReadT(layout, s) ==                                                      \* manifest.go: manifestGet, ManifestHead
   CASE s.place = "desc" -> Guarded(layout, DescD(s))                             \* WithManifestDesc: r.AddDigest(d.Digest)
-    [] s.place = "index" -> Guarded(layout, ContentD(s))                         \* tag -> digest found in index.json
+    [] s.place \in {"index", "platform"} -> Guarded(layout, ContentD(s))         \* tag -> digest found in index.json / nested index
     [] OTHER -> Guarded(layout, RefD(s))
 ManifestPutT(layout, s) ==                                                       \* manifest.go: manifestPut (+ referrerPut)
   CASE s.place = "desc" -> Guarded(layout, DescD(s))                             \* the manifest's own descriptor
@@ -275,9 +283,20 @@ LayoutTouches(layout, s) ==
 
 \* ------------------------------------------------------------------ scenario spaces (uniform record shape)
 NoName == [segs |-> <<>>, lead |-> 0, trail |-> 0]
-Scn(ep, n, unpack, strip, ents, op, h, place, wm, chk) ==
+\* secondary input dimensions, held at a default by the generator and assigned by the runner from SecondaryDims (cheap
+\* covering at quick, products for the core scenarios at thorough):
+\*   odir  how the designated directory is spelled to the code: absolute | relative to the working directory | "." (the
+\*         working directory is the designated directory) | absolute with a trailing slash | through a symbolic link in a
+\*         PARENT of the designated directory (the user's own, the directory itself contains no links)
+\*   comp  compression of the archive (archive.Decompress): none | gzip
+\*   hdr   tar header format carrying the name: PAX record | GNU long name | USTAR prefix/name fields
+\*   pos   artifact get: the hostile layer is the only one | first of two | second of two (the other is benign, title "ok")
+OutSpellings == {"abs", "rel", "dot", "slash", "vialink"}
+SecondaryDims == [odir : OutSpellings, comp : {"none", "gzip"}, hdr : {"pax", "gnu", "ustar"}, pos : {"only", "first", "second"}]
+Scn(ep, n, unpack, strip, ents, op, h, place, wm, chk, opt) ==
   [ep |-> ep, segs |-> n.segs, lead |-> n.lead, trail |-> n.trail, unpack |-> unpack, strip |-> strip, ents |-> ents,
-   op |-> op, h |-> h, place |-> place, wm |-> wm, chk |-> chk]
+   op |-> op, h |-> h, place |-> place, wm |-> wm, chk |-> chk, opt |-> opt,
+   odir |-> "abs", comp |-> "none", hdr |-> "pax", pos |-> "only"]
 Ent(k, n, t, tl) == [k |-> k, n |-> n, t |-> t, tl |-> tl]
 
 \* (i) artifact get: title x annotation x --strip-dirs; the layer is a fixed small tar when unpacked
@@ -286,15 +305,20 @@ LayerTar == << Ent("dir", <<"d">>, <<>>, 0), Ent("reg", <<"d", "f">>, <<>>, 0), 
                Ent("reg", <<"dotdot", "sib2">>, <<>>, 0), Ent("dir", <<"dotdot", "sibdir">>, <<>>, 0),       \* siblings of the
                Ent("reg", <<"dotdot", "sibdir", "f">>, <<>>, 0), Ent("reg", <<"d", "dotdot", "dotdot", "sibtxt">>, <<>>, 0),  \* extract dir
                Ent("reg", <<"dotdot", "victim">>, <<>>, 0) >>
-ArtScenarios == {Scn("art", n, u, s, <<>>, "-", "-", "-", "-", 0) : n \in HostileNames, u \in {0, 1}, s \in {0, 1}}
+ArtScenarios == {Scn("art", n, u, s, <<>>, "-", "-", "-", "-", 0, "-") : n \in HostileNames, u \in {0, 1}, s \in {0, 1}} \cup
+  \* no title: the file is named after the layer digest found in the (untrusted) manifest
+  {Scn("art", NoName, u, s, <<>>, "-", d.c, "layerdigest", "-", 0, "-") : d \in DigestClasses, u \in {0, 1}, s \in {0, 1}}
 
 \* (ii) archive.Extract: one hostile entry (directory or file; for a file its parent directory goes first) ...
 TarScenarios ==
   {Scn("tar", n, 0, 0, IF k = "dir" THEN <<Ent("dir", n.segs, <<>>, 0)>>
                        ELSE <<Ent("dir", IF n.segs = <<>> THEN <<>> ELSE Front(n.segs), <<>>, 0), Ent("reg", n.segs, <<>>, 0)>>,
-       "-", "-", "-", "-", 0) : n \in HostileNames, k \in {"dir", "reg"}} \cup
+       "-", "-", "-", "-", 0, "-") : n \in HostileNames, k \in {"dir", "reg"}} \cup
+  \* an entry of a type the code ignores (fifo; the driver also uses it for device nodes)
+  {Scn("tar", n, 0, 0, <<Ent("fifo", n.segs, <<>>, 0)>>, "-", "-", "-", "-", 0, "-") :
+     n \in {m \in HostileNames : (Len(m.segs) \in 1..2 \/ IsSibling(m.segs)) /\ m.trail = 0}} \cup
   \* a file entry alone (no parent directory entry that an entry guard could trip over first)
-  {Scn("tar", n, 0, 0, <<Ent("reg", n.segs, <<>>, 0)>>, "-", "-", "-", "-", 0) :
+  {Scn("tar", n, 0, 0, <<Ent("reg", n.segs, <<>>, 0)>>, "-", "-", "-", "-", 0, "-") :
      n \in {m \in HostileNames : (Len(m.segs) \in 1..2 \/ IsSibling(m.segs)) /\ m.trail = 0}}
 \* ... and link archives: up to two link entries followed by a file or directory written through them
 LinkNames == {<<"a">>, <<"b">>, <<"xdir", "a">>}
@@ -308,22 +332,23 @@ Payloads == {Ent("reg", <<"a", "pwn">>, <<>>, 0), Ent("reg", <<"b", "pwn">>, <<>
              Ent("reg", <<"xdir", "a", "pwn">>, <<>>, 0), Ent("reg", <<"a", "victim">>, <<>>, 0)}
 LinkArchives == {<<l, p>> : l \in Links, p \in Payloads} \cup
                 {<<l1, l2, p>> : l1 \in {l \in Links : l.k = "sym"}, l2 \in {l \in Links : l.k = "sym" /\ l.tl = 0}, p \in Payloads}
-LinkScenarios == {Scn("lnk", NoName, 0, 0, a, "-", "-", "-", "-", 0) : a \in LinkArchives}
+LinkScenarios == {Scn("lnk", NoName, 0, 0, a, "-", "-", "-", "-", 0, "-") : a \in LinkArchives}
 
 \* (iii) ImageImport: the hostile name appears as an extra entry, as a blob path of the docker manifest.json, or as
 \* the name under which a referenced blob is stored in the tar
 ImportPlaces == {"extra_reg", "extra_dir", "extra_sym", "extra_hard", "docker_config", "docker_layer", "oci_blobname"}
 ImpNames == {n \in HostileNames : Len(n.segs) <= 2 \/ IsSibling(n.segs)}
-ImportScenarios == {Scn("imp", n, 0, 0, <<>>, "ImageImport", "-", p, "-", 0) : n \in ImpNames, p \in ImportPlaces} \cup
-                   {Scn("imp", NoName, 0, 0, <<>>, "ImageImport", d.c, p, "-", 0) : d \in DigestClasses, p \in {"oci_index", "oci_layer", "oci_child"}}
+ImportScenarios == {Scn("imp", n, 0, 0, <<>>, "ImageImport", "-", p, "-", 0, "-") : n \in ImpNames, p \in ImportPlaces} \cup
+                   {Scn("imp", NoName, 0, 0, <<>>, "ImageImport", d.c, p, "-", 0, "-") : d \in DigestClasses, p \in {"oci_index", "oci_layer", "oci_child"}}
 
 \* (iv) every layout operation x hostile digest / tag x placement
-LayoutScenarios ==
-  {Scn("lay", NoName, 0, 0, <<>>, op, h, pl, wm, c) :
-     op \in LayoutOps, h \in {d.c : d \in DigestClasses} \cup {"tag_" \o t : t \in TagClasses}, pl \in {"ref", "desc", "both", "index", "tag",
-     "subject", "child", "nested", "layer", "srcindex", "srcchild", "srclayer", "srcsubject", "tgtref", "tgttag"}, wm \in {"none", "plain", "subject", "hsubject"}, c \in {0, 1}}
-LayoutSpace == {s \in LayoutScenarios : /\ s.place \in Places(s.op) /\ s.wm \in WithM(s.op) /\ s.chk \in Chk(s.op)
-                                        /\ (IsTagClass(s.h) <=> s.place \in {"tag", "tgttag"})}
+LayoutSpace ==
+  UNION {{Scn("lay", NoName, 0, 0, <<>>, op, h, pl, wm, c, o) :
+            h \in {d.c : d \in DigestClasses} \cup {"tag_" \o t : t \in TagClasses}, pl \in Places(op), wm \in WithM(op),
+            c \in Chk(op), o \in Opts(op)} : op \in LayoutOps}
+LayoutScenarios == {s \in LayoutSpace : IsTagClass(s.h) <=> s.place \in {"tag", "tgttag"}}
+DimScenarios == {[Scn("dim", NoName, 0, 0, <<>>, "-", "-", "-", "-", 0, "-") EXCEPT !.odir = d.odir, !.comp = d.comp, !.hdr = d.hdr, !.pos = d.pos] :
+                   d \in SecondaryDims}
 
 \* (no union constant: TLC evaluates constants eagerly and normalising 128k records costs a minute; modules choose by
 \* entry point instead)
@@ -331,7 +356,8 @@ InSpace(x, eps) == \/ "art" \in eps /\ x \in ArtScenarios
                    \/ "tar" \in eps /\ x \in TarScenarios
                    \/ "lnk" \in eps /\ x \in LinkScenarios
                    \/ "imp" \in eps /\ x \in ImportScenarios
-                   \/ "lay" \in eps /\ x \in LayoutSpace
+                   \/ "lay" \in eps /\ x \in LayoutScenarios
+                   \/ "dim" \in eps /\ x \in DimScenarios
 
 \* ------------------------------------------------------------------ what the model says a scenario touches
 RECURSIVE RunEntries(_, _, _, _)
@@ -343,14 +369,17 @@ ArtFS(pl) == FS0 \cup {Node(q, "dir") : q \in {q \in Prefixes(pl.mkdir) : ~Has(F
 ArtTouches(s) ==
   LET pl == ArtPlan([segs |-> s.segs, lead |-> s.lead, trail |-> s.trail], s.unpack, s.strip)
       made == IF DirsOk(FS0, pl.mkdir) THEN {q \in Prefixes(pl.mkdir) : ~Has(FS0, q)} ELSE {}
-  IN IF ~DirsOk(FS0, pl.mkdir) THEN {}
-     ELSE made \cup (IF pl.mode = "file" THEN (IF IsDir(ArtFS(pl), pl.target) THEN {} ELSE {pl.target})
+      other == IF s.pos = "only" THEN {} ELSE {Out \o <<"ok">>}        \* the benign second layer (may be cut off by an error)
+  IN IF s.place = "layerdigest" /\ ~Validate(Dig(s.h)) THEN other     \* "layer contains invalid digest"
+     ELSE IF ~DirsOk(FS0, pl.mkdir) THEN other
+     ELSE other \cup made \cup (IF pl.mode = "file" THEN (IF IsDir(ArtFS(pl), pl.target) THEN {} ELSE {pl.target})
                      ELSE IF IsDir(ArtFS(pl), pl.target) THEN RunEntries(ArtFS(pl), pl.target, LayerTar, {}) ELSE {})
 Touches(s) ==
   CASE s.ep = "art" -> ArtTouches(s)
     [] s.ep \in {"tar", "lnk"} -> RunEntries(FS0, Out, s.ents, {})
     [] s.ep = "imp" -> {}                                  \* only computed-digest blobs and housekeeping files
     [] s.ep = "lay" -> LayoutTouches(Out, s)
+    [] s.ep = "dim" -> {}
 \* the property at model level: everything a scenario touches is inside the designated directory
 Contained(s) == \A p \in Touches(s) : Inside(Out, p)
 =============================================================================
